@@ -19,7 +19,7 @@ EXPLANATION = (
     "every dequeued non-sentinel item through the decoder and flags EOF only on the sentinel; (D5) the socket "
     "timeout is restored (see C05-D7); (D6) once data has been read, every explicit exit of the function returns a "
     "value derived from it or parks it in the carry-over buffer -- no handler or raise discards it, except raises "
-    "guarded by the data being empty. NOT decided: interleavings with the kernel and the peer, byte exactness.")
+    "guarded by the data being empty (decided path-sensitively: the tests passed on every path force the variable to be falsy); (D8) end of stream is recognised on the raw read result, never on decoder output (an empty decode is not an empty read). NOT decided: interleavings with the kernel and the peer, byte exactness.")
 TRUSTED = ["os.read / socket.recv return at most the requested number of bytes", "Queue is FIFO", "sa/ engine"]
 ASSUMPTIONS = ["implicit exceptions from library calls (e.g. a strict codec error) are out of scope for D6"]
 LEVEL_TEXT = ("Static analysis of named structural clauses of the transports: bounded request size (linear forms), "
